@@ -178,7 +178,18 @@ def build(S):
         S.add_interp_obligations(I)
         fn = I.module(REL).find(FN)
         uses = [c for c in ast.walk(fn) if isinstance(c, ast.Call) and ast.unparse(c.func).split('.')[-1] == 'atoms_of_type']
-        ok = all(len(u.args) == 2 and ast.unparse(u.args[1]) in ('pattern.elements[0]', 'pattern_elements[0]') for u in uses)
+        import re as _re
+        def text_of(node):
+            # a local name assigned exactly once stands for the expression it was assigned
+            if isinstance(node, ast.Name):
+                defs = [a for a in ast.walk(fn) if isinstance(a, ast.Assign) and len(a.targets) == 1 and isinstance(a.targets[0], ast.Name) and a.targets[0].id == node.id]
+                if len(defs) == 1:
+                    return ast.unparse(defs[0].value)
+            return ast.unparse(node)
+        texts = [text_of(u.args[1]) if len(u.args) == 2 else '?' for u in uses]
+        ok = all(t in ('pattern.elements[0]', 'pattern_elements[0]') for t in texts)
+        if not ok and not any(_re.fullmatch(r'pattern(\.|_)(elements|atom_type_elements|symbols)\[.+\]', t) for t in texts if t not in ('pattern.elements[0]', 'pattern_elements[0]')):
+            raise OutOfSubset("the element the start atoms are selected by is an expression the contract cannot read: %r" % (texts,))
         if not uses:
             raise OutOfSubset("find_pattern_in_structure no longer takes its start atoms from atoms_of_type (contract no longer applies)")
         S.add(I, "find/start-atoms/are-the-atoms-of-the-first-pattern-element", [], z3.BoolVal(bool(ok)), clause='(1) the first atom of a match has the first pattern element')
